@@ -80,7 +80,11 @@ def replay_behaviour(ctx, pq, b, rec, d, pid, check_frame=True):
     sim = pq.PureFockSimulator(d=d if b["simd"] else None, config=pq.Config(cutoff=d + 1, seed_sequence=7))
     before = snapshot(instrs)
     prog = pq.Program(instructions=instrs)
-    f.install(instrs)
+    try:
+        f.install(instrs)
+    except NotImplementedError:
+        f.uninstall()
+        return "skip"
     rec.install()
     status, exc, result = "done", "", None
     try:
